@@ -207,9 +207,69 @@ def _job(job, emit):
                                     "cfps": [cursor_fp(x) for x in cursors]})
             meta.append({"op": c.op, "args": c.args, "ok": ok, "exc": exc, "on": 1})
         emit("rec", {"prog": prog, "session": "sweep", "trace": trace, "meta": meta, "texts": [_safe_str(p0)]})
+    if job.get("stability"):
+        emit("begin", "stability")
+        _stability_session(job, emit, mod, p0, prog, ctx)
 
 
-def run(modules, seed, sessions, length, maxprocs=14, select=None, sweep=0):
+def _stability_session(job, emit, mod, p0, prog, ctx):
+    """The same calls on the same existing procedure must give the same outcome (printed result or kind of error)
+    whatever was analysed, scheduled or refused in between: outcomes are handles of a SessionTrace session, the
+    unrelated operations in between are its (unobserved) steps, and the closing event re-observes every outcome."""
+    import hashlib as _h
+    from .gen_schedules import enumerate_candidates
+    rng = random.Random(f"purity-stability/{job['seed']}/{prog}")
+    cands = enumerate_candidates(p0, ctx, rich=True)
+    by = {}
+    for c in cands:
+        if c.op == "extract_subproc":
+            continue  # (the candidate grid numbers the extracted procedures: its thunk is not a function of its arguments)
+        by.setdefault(c.op, []).append(c)
+    pick = []
+    for op, cs in sorted(by.items()):
+        rng.shuffle(cs)
+        pick += cs[:2]
+    rng.shuffle(pick)
+    pick = pick[: job["stability"]]
+
+    def outcome(c):
+        signal.alarm(40)
+        try:
+            q = c.fn()
+            signal.alarm(0)
+            return "none" if q is None else "ok:" + _h.sha1(_safe_str(q).encode()).hexdigest()[:12]
+        except _Timeout:
+            return "T"
+        except BaseException as e:
+            signal.alarm(0)
+            return "E:" + type(e).__name__
+
+    first = [outcome(c) for c in pick]
+    # unrelated operations: blind candidates on the other procedures of the module (most of them are refused)
+    others = [q for q in mod.PROCS if q is not p0]
+    rng.shuffle(others)
+    n_between = 0
+    for q in others[:4]:
+        try:
+            c2s = enumerate_candidates(q, ctx, rich=True)
+        except BaseException:
+            continue
+        rng.shuffle(c2s)
+        for c2 in c2s[:10]:
+            outcome(c2)
+            n_between += 1
+    second = [outcome(c) for c in pick]
+    keep = [k for k in range(len(pick)) if first[k] != "T" and second[k] != "T"]
+    if not keep:
+        return
+    trace = {"init": {"fps": [first[k] for k in keep], "cfps": []},
+             "events": [{"op": "(the same calls again)", "ok": False, "fps": [second[k] for k in keep], "cfps": []}]}
+    meta = [{"op": "(the same calls again)", "args": f"{len(keep)} calls, {n_between} unrelated operations in between",
+             "ok": False, "exc": "", "on": 0, "calls": [f"{pick[k].op}({pick[k].args})" for k in keep]}]
+    emit("rec", {"prog": prog, "session": "stability", "trace": trace, "meta": meta, "texts": [_safe_str(p0)]})
+
+
+def run(modules, seed, sessions, length, maxprocs=14, select=None, sweep=0, stability=0):
     from .pool import stream_pool
     from .common import MachineryError
     jobs = []
@@ -219,7 +279,7 @@ def run(modules, seed, sessions, length, maxprocs=14, select=None, sweep=0):
             if select is not None and not select(m, p):
                 continue
             jobs.append({"module": m, "index": idx, "seed": seed, "sessions": sessions, "length": length,
-                         "maxprocs": maxprocs, "sweep": sweep})
+                         "maxprocs": maxprocs, "sweep": sweep, "stability": stability})
     recs, crashes, hangs = stream_pool(jobs, _job, NCPU, silence=300)
     if crashes:
         raise MachineryError("purity worker crashed:\n" + crashes[0][1])
